@@ -6,3 +6,15 @@ chk('C03',
     "Bounded model checking of regex::dfa_match and regex::expr::match (real code) on the automaton the real dfa_builder/regex parser built inside clang's constant evaluator: per pattern, every subject string over all 256 byte values and every length <= LMAX is decided by the SAT solver against a reference minimal DFA derived from the README syntax table; complete for a pattern when the product-automaton bound (N+1)(M+1)-1 <= LMAX.",
     "Pattern dimension is a generated finite family (test-suite patterns, all 1- and 2-leaf shapes, seeded 3-leaf sample); 770 of the 3470 pool patterns are recorded known findings (dfa_builder merges states instead of determinising) - for those the solver must prove the matcher still has exactly the recorded defective language; trusted: clang-14, ir2c, CBMC/MiniSat, reference NFA->DFA construction.",
     "CBMC bounded model checking of clang-lowered dfa_match vs reference minimal DFA", "DESIGN.md 5/C03")
+chk('C08',
+    "Bounded model checking of the real driver's error branch (pop_stacks, shift_recovery_token, consume_term_recovering, mode switches) on grammars with error rules: for every byte string of the stated length the optional, the value (hash of surviving subtrees), the functor call sequence, consumed term values, syntax-error messages and - with verbose on - the complete hashed recovery event log equal a reference interpreter of the README recovery algorithm.",
+    "G-err family of 4 grammars; inputs up to the stated length; README algorithm read as 'present the error token to the current state first' (the tree was repaired to match, fix 297b680); verbose log compared through a rolling add/rotate hash (collisions can hide but never raise an alarm) plus the printed state numbers up to a bijection.",
+    "CBMC bounded model checking of clang-lowered driver vs reference recovery interpreter", "DESIGN.md 5/C08")
+chk('C02',
+    "Bounded model checking of shift/reduce/reducers on real tables: for every byte string of the stated length the returned value, the sequence of rule-functor calls and the term values and positions handed to functors equal the reference bottom-up evaluation; rule values are non-commutative polynomial hashes of the children so order, identity and multiplicity of children are observable.",
+    "Grammar family finite (directed + seeded random); value types unsigned / term_value<unsigned>; default functors and _e1.._e3 covered by unit e123/etf/chain.",
+    "CBMC bounded model checking of clang-lowered reducers vs reference evaluation", "DESIGN.md 5/C02")
+chk('C09',
+    "Bounded model checking of the failure paths (syntax_error, unexpected_char, loop exits) on real canonical-LR(1) tables: for every byte string of the stated length, empty optional iff not in the language, and the message list written to a recording stream equals the reference (kind, line, column, offending term or byte); a successful non-verbose parse writes nothing.",
+    "Grammar family finite; the pieces streamed are observed, std::ostream formatting is outside; skip_whitespace/skip_newline on.",
+    "CBMC bounded model checking of clang-lowered driver vs reference LR(1) error detection", "DESIGN.md 5/C09")
